@@ -316,6 +316,12 @@ func makeCreator(mspID string, certDER []byte) []byte {
 	return b
 }
 
+// makeCreatorRaw: a serialized identity around arbitrary certificate bytes.
+func makeCreatorRaw(mspID string, idBytes []byte) []byte {
+	b, _ := proto.Marshal(&msp.SerializedIdentity{Mspid: mspID, IdBytes: idBytes})
+	return b
+}
+
 func NewECIdentity(name, ou string) *Identity { return NewECIdentityOUs(name, []string{ou}) }
 
 // NewECIdentityOUs: a certificate with any list of organisational units (none at all is legal X.509).
